@@ -34,6 +34,8 @@ class Sched:
         else:
             idx = self._policy(site, arity)
         self._i += 1
+        global total_picks
+        total_picks += 1
         self.trace.append([site, arity, idx])
         return idx
 
@@ -70,6 +72,7 @@ class Sched:
         return Sched(spec.get("draws"), spec.get("fallback", "first"), spec.get("seed", 0))
 
 
+total_picks = 0
 _current: Optional[Sched] = None
 _installed = False
 draw_observers = []  # callables (site, seq_or_bounds, pick) -> None, used by property checks
